@@ -37,10 +37,46 @@ Section TlruBridge.
            | H : true = false |- _ => discriminate H
            | H : false = true |- _ => discriminate H
            end.
-  Ltac crush := repeat (proj; inner; clean); proj; simpl; try congruence; auto.
+  (* residual arithmetic (m_used_size += 1 for ++m_used_size, < 1 for == 0, != 0 for > 0, ...): the boolean
+     comparisons of the context become propositions, lia decides *)
+  Ltac props :=
+    repeat match goal with
+           | H : negb _ = true |- _ => apply Bool.negb_true_iff in H
+           | H : negb _ = false |- _ => apply Bool.negb_false_iff in H
+           | H : (_ <? _) = true |- _ => apply Nat.ltb_lt in H
+           | H : (_ <? _) = false |- _ => apply Nat.ltb_ge in H
+           | H : (_ =? _) = true |- _ => apply Nat.eqb_eq in H
+           | H : (_ =? _) = false |- _ => apply Nat.eqb_neq in H
+           | H : (_ <=? _) = true |- _ => apply Nat.leb_le in H
+           | H : (_ <=? _) = false |- _ => apply Nat.leb_gt in H
+           end.
+  (* the generated setters, opened into records *)
+  Ltac setters :=
+    cbv beta delta [set_tt_cap set_tt_ttl set_tt_elems set_tt_index set_tt_list set_tt_end set_tt_ord set_tt_used
+                    set_te_expire set_te_keyed set_te_lru set_te_ttl set_te_val with_list]; proj.
+  (* equal up to arithmetic: at most three constructors deep (Ok, the state record, a field) *)
+  Ltac eqarith :=
+    solve [ reflexivity | lia | f_equal; lia | f_equal; f_equal; lia | f_equal; f_equal; f_equal; lia
+          | setters; first [ reflexivity | f_equal; lia | f_equal; f_equal; lia | f_equal; f_equal; f_equal; lia ] ].
+  Ltac arith := solve [ props; first [ exfalso; lia | eqarith ] ].
+  (* two conditions over nat that are the same boolean, whatever their spelling *)
+  Ltac barith :=
+    repeat match goal with
+           | |- context [?a <? ?b] => destruct (Nat.ltb_spec a b)
+           | |- context [?a <=? ?b] => destruct (Nat.leb_spec a b)
+           | |- context [?a =? ?b] => destruct (Nat.eqb_spec a b)
+           end; cbn [negb andb orb]; solve [ reflexivity | exfalso; lia ].
+  (* the condition of the generated `if` heading the left side is rewritten into the one of the literal machine *)
+  Ltac same_cond :=
+    match goal with
+    | |- req (bind (if ?c then _ else _) _) (bind (if ?d then _ else _) _) => first [ constr_eq c d | replace c with d by barith ]
+    | |- req (bind (if ?c then _ else _) _) (if ?d then _ else _) => first [ constr_eq c d | replace c with d by barith ]
+    | |- req (if ?c then _ else _) (if ?d then _ else _) => first [ constr_eq c d | replace c with d by barith ]
+    end.
+  Ltac crush := repeat (proj; inner; clean); proj; simpl; try congruence; auto; try arith.
   (* use of an already bridged callee: its lemma goes in front of the goal, the case analysis does the rest *)
   Ltac callee L := let P := fresh "P" in pose proof L as P; unfold req in P; revert P.
-  Ltac finish := intros; clean; subst; try contradiction; try congruence; auto.
+  Ltac finish := intros; clean; subst; try contradiction; try congruence; auto; try arith.
 
   Lemma g_do_access_ok (s : ttll K V) (i : nat) :
     req (g_do_access s i) (do e <- vget "m_elements[element_idx]" (tt_elems s) i; tt_access s e).
@@ -55,7 +91,7 @@ Section TlruBridge.
 
   Lemma g_do_prune_ok (s : ttll K V) now : req (g_do_prune s now) (tt_do_prune false s now).
   Proof.
-    unfold g_do_prune, tt_do_prune.
+    unfold g_do_prune, tt_do_prune. same_cond.
     destruct (0 <? tt_used s); [|simpl; auto].
     destruct (tt_ord s) as [|[z idx] r] eqn:O; [simpl; auto|].
     unfold mm_it_first, mm_it_second. rewrite mm_begin_cons. cbn [bind fst snd].
@@ -101,7 +137,7 @@ Section TlruBridge.
   Lemma g_do_insert_ok (s : ttll K V) k v now ex :
     assoc k (tt_index s) = None -> req (g_do_insert s k v now ex) (tt_do_insert false s k v now ex).
   Proof.
-    intros A. unfold g_do_insert, tt_do_insert.
+    intros A. unfold g_do_insert, tt_do_insert. same_cond.
     apply req_bind.
     - destruct (List.length (tt_elems s) <=? tt_used s); [|simpl; auto].
       callee (g_do_prune_ok s now). unfold bind. crush; finish.
@@ -130,7 +166,7 @@ Section TlruBridge.
       proj.
       rewrite vget_upd in P by (apply Nat.ltb_lt; auto). cbn [bind] in P.
       match type of P with req _ (tt_access ?st ?e) =>
-        match goal with |- req _ (tt_access ?st' ?e') => change (tt_access st e) with (tt_access st' e') in P end end.
+        match goal with |- req _ (tt_access ?st' ?e') => replace (tt_access st e) with (tt_access st' e') in P by eqarith end end.
       revert P. unfold req, bind. crush; finish.
   Qed.
 
@@ -208,7 +244,7 @@ Section TlruBridge.
       callee (g_do_insert_update_ok s k v now (now + ms z)%Z a). unfold bind at 1 2 3.
       destruct (g_do_insert_update s k v now (now + ms z)%Z a) as [[s1 b]|], (tt_ins false s k v a now (now + ms z)%Z) as [[s2 b2]|];
         intros P; try contradiction; auto.
-      inversion P; subst. destruct b2; cbn [bind]; apply IH. }
+      inversion P; subst. destruct b2; cbn [bind]; rewrite ?Nat.add_1_r; apply IH. }
     specialize (G l s 0). revert G.
     destruct (foldM _ _ _) as [[s' n']|]; cbn [bind]; auto.
   Qed.
@@ -222,8 +258,8 @@ Section TlruBridge.
       rewrite mit_find_some. unfold tt_erase, mit_find, mit_second.
       destruct (assoc k (tt_index s)) as [idx|] eqn:A; cbn [bind]; [|apply IH].
       rewrite A. cbn [bind]. callee (g_do_erase_ok s idx).
-      destruct (g_do_erase s idx) as [s1|], (tt_do_erase s idx) as [s2|]; simpl; intros P; try contradiction; auto.
-      subst. apply IH. }
+      destruct (g_do_erase s idx) as [s1|], (tt_do_erase s idx) as [s2|]; cbn [bind]; intros P; try contradiction; auto.
+      subst. rewrite ?Nat.add_1_r. apply IH. }
     specialize (G l s 0). revert G.
     destruct (foldM _ _ _) as [[s' n']|]; cbn [bind]; auto.
   Qed.
@@ -292,14 +328,14 @@ Section TlruBridge.
                                    then (do z <- mm_it_first (tt_ord s) (mm_begin (tt_ord s)); Ok (z <=? now)%Z)
                                    else Ok false); Ok c)) ->
     (forall s : ttll K V, B s = (do n <- mm_it_second (tt_ord s) (mm_begin (tt_ord s)); do s' <- g_do_erase s n; Ok (true, s'))) ->
-    forall fuel s n,
-      match whileB fuel C B s, tt_clean_loop false fuel s now n with
+    forall fuel fuel' s n, fuel = fuel' ->
+      match whileB fuel C B s, tt_clean_loop false fuel' s now n with
       | Ok s1, Ok (s2, n2) => s1 = s2 /\ List.length (tt_ord s) + n = List.length (tt_ord s2) + n2
       | UB _, UB _ => True
       | _, _ => False
       end.
   Proof.
-    intros HC HB. induction fuel as [|f IH]; intros s n; simpl; auto.
+    intros HC HB fuel fuel' s n <-. revert s n. induction fuel as [|f IH]; intros s n; simpl; auto.
     rewrite HC, HB.
     destruct (0 <? tt_used s); cbn [bind]; [|auto].
     destruct (tt_ord s) as [|[z idx] r] eqn:O; [simpl; auto|].
@@ -316,7 +352,13 @@ Section TlruBridge.
   Proof.
     unfold g_clean_expired_values, tt_clean.
     match goal with |- req (bind (whileB ?f ?C ?B s) _) _ =>
-      pose proof (g_clean_loop now C B (fun _ => eq_refl) (fun _ => eq_refl) f s 0) as G end.
+      assert (HC : forall s : ttll K V, C s = (do c <- (if 0 <? tt_used s
+                                   then (do z <- mm_it_first (tt_ord s) (mm_begin (tt_ord s)); Ok (z <=? now)%Z)
+                                   else Ok false); Ok c));
+      [ intros s0; cbv beta;
+        match goal with |- bind (if ?c then _ else _) _ = bind (if ?d then _ else _) _ =>
+          first [ constr_eq c d | replace c with d by barith ] end; reflexivity
+      | pose proof (g_clean_loop now C B HC (fun _ => eq_refl) f (S (tt_used s)) s 0 ltac:(lia)) as G; clear HC ] end.
     revert G.
     destruct (whileB _ _ _ s) as [s1|], (tt_clean_loop false (S (tt_used s)) s now 0) as [[s2 n2]|]; cbn [bind]; intros G;
       try contradiction; auto.
